@@ -611,7 +611,7 @@ class Dict(dict, base.Symbolic, pg_typing.CustomTyping):
       )
     if field and flags.is_type_check_enabled():
       value = field.apply(
-          value,
+          self._copy_container_owned_elsewhere(name, value),
           allow_partial=allow_partial,
           transform_fn=base.symbolic_transform_fn(self._allow_partial),
           root_path=utils.KeyPath(name, self.sym_path),
